@@ -451,6 +451,9 @@ def r5_clock_origin(ctx):
     ws = [w for w in writers.get(SEARCH + "best_move", []) if w[3] == "field"]
     heads = sorted({h for (a, h) in cfg.back_edges()})
     ok = bool(ws) and bool(heads) and all(cfg.dominates(w[0], h) for w in ws for h in heads)
+    if not ws or not heads:
+        ctx.lost(rid, "Search::best_move: the assignment of the clock origin and the iteration loop (found %d / %d)" % (len(ws), len(heads)))
+        return
     ctx.ob(rid, "best_move|reset-before-iterations", ok, "" if ok else "Search::best_move does not set the clock origin before its iteration loop", ctx.where(f))
 
 
